@@ -50,7 +50,15 @@ def statements(fn, nested=False) -> List[Tuple[str, ast.AST]]:
 
 
 def _compile(pattern: str, bound: Dict[str, str]) -> Tuple[re.Pattern, List[str]]:
-    parts = re.split(r"(\$[A-Za-z_][A-Za-z_0-9]*)", norm(pattern).replace("if:", "if: ").replace("while:", "while: ").replace("if:  ", "if: ").replace("while:  ", "while: "))
+    np_ = norm(pattern)
+    if np_.startswith("for:"):
+        tgt, _, it = np_[4:].partition(":")
+        np_ = f"for: {tgt} : {it}"
+    elif np_.startswith("if:"):
+        np_ = "if: " + np_[3:]
+    elif np_.startswith("while:"):
+        np_ = "while: " + np_[6:]
+    parts = re.split(r"(\$[A-Za-z_][A-Za-z_0-9]*)", np_)
     rx, new = "", []
     for p in parts:
         if p.startswith("$"):
